@@ -2,7 +2,7 @@
 import ast
 
 from .. import util
-from ..interp import Interp, Path, exc_value, show, strip_sites, subterms, NONE
+from ..interp import alpha, Interp, Path, exc_value, show, strip_sites, subterms, NONE
 from .. import slots
 from ..report import Undecided
 
@@ -370,7 +370,7 @@ def composite_rules(chk, qual, weighted):
                 return tuple(swap(x) for x in t)
             return t
 
-        if swap(terms["utilisation"][0]) != terms["allocation"][0]:
+        if alpha(swap(terms["utilisation"][0])) != alpha(terms["allocation"][0]):
             chk.bad("O7.4", cls.qual, "utilisation and allocation are not the same aggregate under the attribute swap: %s vs %s" % (show(terms["utilisation"][0]), show(terms["allocation"][0])), node=cls.node, stmt="sibling-symmetry")
         else:
             chk.ok("O7.4", cls.qual, "utilisation and allocation are identical under the attribute swap", node=cls.node)
